@@ -39,8 +39,11 @@ ORDERS = ['ABACAD', 'ABAB', 'A']
 LETTERS = ['A', 'B', 'C', 'D', 'Z']
 ITEMS = list(R.COMPAT_CLASS)                       # a b c | d e f g | n5 nN nA
 EXT_Q = ['a', 'b', 'c', 'd', 'g', 'n5']            # extend([x, y]) pairs, quick tier
+VIOL_CAP = 2                                       # violations listed per (site, failure) and expanded state
 TLA_DIR = os.path.join(os.path.dirname(os.path.dirname(os.path.abspath(__file__))), 'tla')
-TLC_ITEM = {1: 'a', 2: 'b', 3: 'c', 4: 'd'}        # TLA+ item ids -> pool names (4 = Bad)
+# TLC configurations: (cfg file, TLA+ item id -> pool name (last = Bad), order string, description)
+TLC_MODELS = [('CadenceList.cfg', ['a', 'b', 'c', 'd'], 'ABACAD', 'NItems=4, Bad=4, MaxLen=4, Order=ABACAD'),
+              ('CadenceList_AB.cfg', ['a', 'b', 'd'], 'AB', 'NItems=3, Bad=3, MaxLen=3, Order=AB')]
 
 
 # ---------------------------------------------------------------------------------------------- the pool
@@ -294,17 +297,19 @@ def mutators(n, ordered, tier):
     if tier == 'thorough':
         for t in (['a', 'b', 'a'], ['a', 'b', 'd'], ['b', 'b', 'c'], ['a', 'n5', 'b'], ['c', 'a', 'b']):
             yield ['extend', t]
-    # del c[slice]: one representative per distinct (start, stop, step) in quick = per distinct index set
+    # del c[slice]: start, stop in {None} u [-n-1, n+1], step in {None, 2, -1, -2}; one representative per distinct
+    # set of deleted positions (thorough: per distinct set AND step).  Selection observers use every slice.
     seen = set()
     lim = list(range(-n - 1, n + 2))
     for step_ in (None, 2, -1, -2):
         for a in [None] + lim:
             for b in [None] + lim:
-                if tier != 'thorough':
-                    sig = tuple(range(*slice(a, b, step_).indices(n)))
-                    if sig in seen:
-                        continue
-                    seen.add(sig)
+                sig = tuple(range(*slice(a, b, step_).indices(n)))
+                if tier == 'thorough':
+                    sig = (step_, sig)
+                if sig in seen:
+                    continue
+                seen.add(sig)
                 yield ['delslice', a, b, step_]
     if ordered:
         for o in ORDERS:
@@ -480,9 +485,14 @@ def case_state(c):
     """Expand ONE state: rebuild it, run every observer, execute every enabled mutator."""
     cls, variant, seed, hist = c['cls'], c['variant'], c['seed'], c['hist']
     viol, out, succ = [], set(), []
+    nseen = {}
     ne = trans = traces = amb = 0
 
     def V(site, failure, detail, op=None, params_extra=None):
+        # at most VIOL_CAP violations per (site, failure) and state are shipped; the rest is only counted
+        nseen[(site, failure)] = nseen.get((site, failure), 0) + 1
+        if nseen[(site, failure)] > VIOL_CAP:
+            return
         p = {'cls': cls, 'variant': variant, 'hist': hist, 'op': op, 'opname': op[0] if op else 'observe'}
         if params_extra:
             p.update(params_extra)
@@ -526,8 +536,10 @@ def case_state(c):
             ne += 1
             out.add(okey)
             if v is not None:
-                v['params'] = {'cls': cls, 'variant': variant, 'hist': hist, 'op': op, 'opname': op[0]}
-                viol.append(v)
+                nseen[(v['site'], v['failure'])] = nseen.get((v['site'], v['failure']), 0) + 1
+                if nseen[(v['site'], v['failure'])] <= VIOL_CAP:
+                    v['params'] = {'cls': cls, 'variant': variant, 'hist': hist, 'op': op, 'opname': op[0]}
+                    viol.append(v)
                 dirty = True
                 continue
             if w.fingerprint() != fp0:
@@ -537,6 +549,9 @@ def case_state(c):
                     succ.append([k1, op])
     res = {'viol': viol, 'outcomes': sorted(out), 'n': ne, 'transitions': trans, 'traces': traces, 'ambiguous': amb,
            'key': key0, 'succ': succ}
+    dropped = sum(max(0, k - VIOL_CAP) for k in nseen.values())
+    if dropped:
+        res['extra'] = {'violations_counted_but_not_listed': dropped}
     if len(st['lst']) >= 2:
         res['nontrivial'] = [key0]
     return res
@@ -619,14 +634,14 @@ _SEQ = re.compile(r'seq = <<(.*?)>>')
 _LAB = re.compile(r'lab = <<(.*?)>>')
 
 
-def run_tlc(wd):
-    for f in ('CadenceList.tla', 'CadenceList.cfg'):
+def run_tlc(wd, cfg):
+    for f in ('CadenceList.tla', cfg):
         shutil.copy(os.path.join(TLA_DIR, f), os.path.join(wd, f))
     meta = os.path.join(wd, 'meta')
     out = os.path.join(wd, 'graph')
     t0 = time.time()
     r = subprocess.run(['tlc', '-workers', '1', '-noGenerateSpecTE', '-metadir', meta, '-deadlock',
-                        '-dump', 'dot,actionlabels', out, 'CadenceList'],
+                        '-config', cfg, '-dump', 'dot,actionlabels', out, 'CadenceList'],
                        cwd=wd, capture_output=True, text=True, timeout=1500)
     txt = r.stdout + r.stderr
     m = re.search(r'(\d+) states generated, (\d+) distinct states found, 0 states left on queue', txt)
@@ -659,15 +674,15 @@ def parse_dot(path):
     return nodes, order
 
 
-def _tlc_op(last):
-    """TLA+ history record -> check operation."""
+def _tlc_op(last, items):
+    """TLA+ history record -> check operation (items[k-1] = pool name of TLA+ item k)."""
     o, i, x = last['op'], last['i'], last['x']
     if o == 'append':
-        return ['append', TLC_ITEM[x]]
+        return ['append', items[x - 1]]
     if o == 'insert':
-        return ['insert', i, TLC_ITEM[x]]
+        return ['insert', i, items[x - 1]]
     if o == 'set':
-        return ['set', i, TLC_ITEM[x]]
+        return ['set', i, items[x - 1]]
     if o == 'del':
         return ['del', i]
     if o == 'popi':
@@ -677,7 +692,7 @@ def _tlc_op(last):
     raise engine.HarnessError('unknown TLA+ op %r' % (last,))
 
 
-def tlc_cases(nodes, edges, seed):
+def tlc_cases(nodes, edges, seed, items, order):
     """One case per quiescent (Idle) node: its path from Init and all its outgoing op edges."""
     idle = {k for k, v in nodes.items() if v[2]['op'] == 'idle'}
     parent = {}
@@ -714,7 +729,7 @@ def tlc_cases(nodes, edges, seed):
         ops = []
         while k != init:
             if nodes[k][2]['op'] != 'idle':   # a described state: the op that led here from its Idle parent
-                ops.append(_tlc_op(nodes[k][2]))
+                ops.append(_tlc_op(nodes[k][2], items))
             k = parent[k]
             if len(ops) > 64:
                 raise engine.HarnessError('cyclic parent chain in the TLC dump')
@@ -727,13 +742,14 @@ def tlc_cases(nodes, edges, seed):
               for t in outg.get(k, [])]
         plain = tuple(seq) not in seen_seq
         seen_seq.add(tuple(seq))
-        cases.append({'seed': seed, 'seq': seq, 'lab': lab, 'path': path(k), 'edges': ed, 'plain': plain})
+        cases.append({'seed': seed, 'seq': seq, 'lab': lab, 'path': path(k), 'edges': ed, 'plain': plain,
+                      'items': items, 'order': order})
     return cases, len(idle), nret
 
 
-def _tlc_build(cls, seed, path):
+def _tlc_build(cls, seed, path, order):
     w = World(cls, 'plain', seed)
-    _construct(w, ['new', None, 'ABACAD'])
+    _construct(w, ['new', None, order])
     for op in path:
         exc, msg, _ = _exec(w, op)
         if exc is not None:
@@ -741,10 +757,10 @@ def _tlc_build(cls, seed, path):
     return w, None
 
 
-def _tlc_state(w):
+def _tlc_state(w, items):
     names, labels, _ = w.observe()
-    inv = {v: k for k, v in TLC_ITEM.items()}
-    return [inv.get(x, x) for x in names], [labels[TLC_ITEM[i]] or 'none' for i in (1, 2, 3, 4)]
+    inv = {v: k + 1 for k, v in enumerate(items)}
+    return [inv.get(x, x) for x in names], [labels[x] or 'none' for x in items]
 
 
 def case_tlc(c):
@@ -752,15 +768,16 @@ def case_tlc(c):
     sequence, on a plain Cadence, ignoring labels)."""
     viol, out = [], set()
     nrep = traces = 0
+    items = c['items']
     for cls in (['O', 'C'] if c['plain'] else ['O']):
         w = None
         for e in c['edges']:
             o, i, x, res, dseq, dlab = e
-            op = _tlc_op({'op': o, 'i': i, 'x': x})
+            op = _tlc_op({'op': o, 'i': i, 'x': x}, items)
             if w is None:
-                w, err = _tlc_build(cls, c['seed'], c['path'])
+                w, err = _tlc_build(cls, c['seed'], c['path'], c['order'])
                 traces += 1
-                src = _tlc_state(w)
+                src = _tlc_state(w, items)
                 if err or src[0] != c['seq'] or (cls == 'O' and src[1] != c['lab']):
                     viol.append({'site': 'TLC.path', 'failure': 'source_state_mismatch',
                                  'detail': '%s: path %s gives %s (%s), TLC state is %s %s'
@@ -770,7 +787,7 @@ def case_tlc(c):
                 fp0 = w.fingerprint()
             exc, msg, ret = _exec(w, op)
             nrep += 1
-            got = _tlc_state(w)
+            got = _tlc_state(w, items)
             ok = True
             why = ''
             if res == 'ok' and exc is not None:
@@ -783,7 +800,7 @@ def case_tlc(c):
                 ok, why = False, 'list_mismatch'
             elif cls == 'O' and got[1] != dlab:
                 ok, why = False, ('wrong_label' if res == 'ok' else 'stale_label')
-            elif o in ('pop', 'popi') and res == 'ok' and ret != TLC_ITEM[x]:
+            elif o in ('pop', 'popi') and res == 'ok' and ret != items[x - 1]:
                 ok, why = False, 'wrong_return'
             out.add('tlc:%s:%s' % (o, res))
             if not ok:
@@ -792,7 +809,7 @@ def case_tlc(c):
                                        'implementation: exc=%s(%s) seq=%s lab=%s ret=%s'
                                        % ('OrderedCadence' if cls == 'O' else 'Cadence', c['seq'], c['lab'], c['path'],
                                           json.dumps(op), res, dseq, dlab, exc, msg, got[0], got[1], ret),
-                             'params': {'cls': cls, 'op': op, 'opname': op[0], 'path': c['path']}})
+                             'params': {'cls': cls, 'op': op, 'opname': op[0], 'path': c['path'], 'order': c['order']}})
             if not ok or w.fingerprint() != fp0:
                 w = None
     r = {'viol': viol, 'outcomes': sorted(out), 'n': nrep, 'traces': traces, 'transitions': 0,
@@ -826,25 +843,27 @@ def run(ctx):
                       'non_frames': ['5', 'None', 'ndarray']},
              'max_depth': max(b['max_history_length'] for b in box.values())}
     if thorough:
-        wd = engine.workdir()
-        dot, gen, distinct, tsec = run_tlc(wd)
-        nodes, edges = parse_dot(dot)
-        os.remove(dot)
-        if len(nodes) != distinct:
-            raise engine.HarnessError('dot dump has %d nodes, TLC reported %d distinct states' % (len(nodes), distinct))
-        cases, nidle, nret = tlc_cases(nodes, edges, ctx.seed)
-        del nodes
-        nop = sum(len(c['edges']) for c in cases)
-        if nop + nret != len(edges):
-            raise engine.HarnessError('edge accounting: %d op + %d Ret != %d' % (nop, nret, len(edges)))
-        before = ctx.extra.get('tlc_edges_replayed', 0)
-        ctx.pmap(case_tlc, cases, label='tlc-replay')
-        extra['tlc'] = {'model': 'mc/tla/CadenceList.tla (NItems=4, Bad=4, MaxLen=4, Order=ABACAD)',
-                        'states_generated': gen, 'distinct_states': distinct, 'transitions': len(edges),
-                        'quiescent_states': nidle, 'op_edges': nop, 'ret_edges_checked_structurally': nret,
-                        'op_edges_replayed_on_OrderedCadence': nop,
-                        'edge_replays_total_incl_plain_Cadence': ctx.extra.get('tlc_edges_replayed', 0) - before,
-                        'tlc_wall_s': round(tsec, 1)}
+        extra['tlc'] = []
+        for cfg, items, order, desc in TLC_MODELS:
+            wd = engine.workdir()
+            dot, gen, distinct, tsec = run_tlc(wd, cfg)
+            nodes, edges = parse_dot(dot)
+            os.remove(dot)
+            if len(nodes) != distinct:
+                raise engine.HarnessError('dot dump has %d nodes, TLC reported %d distinct states' % (len(nodes), distinct))
+            cases, nidle, nret = tlc_cases(nodes, edges, ctx.seed, items, order)
+            del nodes
+            nop = sum(len(c['edges']) for c in cases)
+            if nop + nret != len(edges):
+                raise engine.HarnessError('edge accounting: %d op + %d Ret != %d' % (nop, nret, len(edges)))
+            before = ctx.extra.get('tlc_edges_replayed', 0)
+            ctx.pmap(case_tlc, cases, label='tlc-replay')
+            extra['tlc'].append({'model': 'mc/tla/CadenceList.tla + %s (%s)' % (cfg, desc),
+                                 'states_generated': gen, 'distinct_states': distinct, 'transitions': len(edges),
+                                 'quiescent_states': nidle, 'op_edges': nop, 'ret_edges_checked_structurally': nret,
+                                 'op_edges_replayed_on_OrderedCadence': nop,
+                                 'edge_replays_total_incl_plain_Cadence': ctx.extra.get('tlc_edges_replayed', 0) - before,
+                                 'tlc_wall_s': round(tsec, 1)})
     return ctx.finish(
         rule='level-synchronous BFS over operation histories on real Cadence/OrderedCadence objects rebuilt from fresh '
              'frames; every mutator instance of the alphabet whose result keeps the list length <= %d is executed from '
